@@ -65,6 +65,7 @@ pub struct XStats {
     pub cross_thread_drops: u64,
     pub parks: u64,
     pub runs: u64,
+    pub early_drops: u64,
 }
 
 /// `stream()` consumed on one thread, FnRefs dropped on `workers` other threads.
@@ -75,6 +76,12 @@ pub fn try_build(gs: &GraphSpec) -> Option<FnGraph<TFn>> {
     std::panic::catch_unwind(std::panic::AssertUnwindSafe(|| tfn::build(gs))).ok()
 }
 
+#[cfg(not(feature = "mt"))]
+pub fn xthread_stream(_gs: &GraphSpec, _seed: u64, _workers: usize, _reverse: bool, _stats: &mut XStats) -> Vec<Violation> {
+    Vec::new()
+}
+
+#[cfg(feature = "mt")]
 pub fn xthread_stream(gs: &GraphSpec, seed: u64, workers: usize, reverse: bool, stats: &mut XStats) -> Vec<Violation> {
     let Some(g) = try_build(gs) else { return Vec::new() };
     let ug = UserGraph::from_spec(gs);
@@ -82,6 +89,7 @@ pub fn xthread_stream(gs: &GraphSpec, seed: u64, workers: usize, reverse: bool, 
     let n = gs.n;
     let clock = AtomicU64::new(1);
     let acks = AtomicUsize::new(0);
+    let drop_panics = AtomicUsize::new(0);
     let events: Mutex<Vec<XEv>> = Mutex::new(Vec::new());
     let mut out = Vec::new();
     let mut rng = Rng::new(seed);
@@ -89,6 +97,7 @@ pub fn xthread_stream(gs: &GraphSpec, seed: u64, workers: usize, reverse: bool, 
     let mut yields = 0usize;
     let mut ended = false;
     let mut stalled = false;
+    let mut dropped_early = false;
     let mut parks = 0u64;
     thread::scope(|s| {
         let mut txs: Vec<mpsc::Sender<(FnRef<'_, TFn>, u8)>> = Vec::new();
@@ -98,6 +107,7 @@ pub fn xthread_stream(gs: &GraphSpec, seed: u64, workers: usize, reverse: bool, 
             let clock = &clock;
             let acks = &acks;
             let events = &events;
+            let drop_panics = &drop_panics;
             s.spawn(move || {
                 while let Ok((r, spins)) = rx.recv() {
                     for _ in 0..spins {
@@ -105,7 +115,9 @@ pub fn xthread_stream(gs: &GraphSpec, seed: u64, workers: usize, reverse: bool, 
                     }
                     let f = r.idx as u32;
                     let t1 = clock.fetch_add(1, Ordering::SeqCst);
-                    drop(r);
+                    if std::panic::catch_unwind(std::panic::AssertUnwindSafe(move || drop(r))).is_err() {
+                        drop_panics.fetch_add(1, Ordering::SeqCst);
+                    }
                     let t2 = clock.fetch_add(1, Ordering::SeqCst);
                     {
                         let mut e = events.lock().unwrap();
@@ -121,7 +133,14 @@ pub fn xthread_stream(gs: &GraphSpec, seed: u64, workers: usize, reverse: bool, 
         let mut cx = Context::from_waker(&waker);
         let mut stream = Box::pin(if reverse { g.stream_with(fn_graph::StreamOpts::new().rev()).left_stream() } else { g.stream().right_stream() });
         let mut local: Vec<FnRef<'_, TFn>> = Vec::new();
+        // one run in four: the consumer gives up early and drops the stream while FnRefs are
+        // still being dropped on the other threads ("dropping FnRefs or the stream in any order")
+        let give_up_after = if rng.chance(1, 4) { Some(rng.below(n.max(1))) } else { None };
         loop {
+            if Some(yields) == give_up_after {
+                dropped_early = true;
+                break;
+            }
             pw.flag.store(false, Ordering::SeqCst);
             match stream.as_mut().poll_next(&mut cx) {
                 Poll::Ready(Some(r)) => {
@@ -174,10 +193,21 @@ pub fn xthread_stream(gs: &GraphSpec, seed: u64, workers: usize, reverse: bool, 
                 }
             }
         }
-        drop(stream);
-        drop(local);
+        if std::panic::catch_unwind(std::panic::AssertUnwindSafe(move || drop(stream))).is_err() {
+            drop_panics.fetch_add(1, Ordering::SeqCst);
+        }
+        if std::panic::catch_unwind(std::panic::AssertUnwindSafe(move || drop(local))).is_err() {
+            drop_panics.fetch_add(1, Ordering::SeqCst);
+        }
         drop(txs);
     });
+    if drop_panics.load(Ordering::SeqCst) > 0 {
+        out.push(v("C05", "panic-on-drop-cross-thread", format!("{} drop(s) of an FnRef / the stream panicked while FnRefs were dropped on other threads{}; graph {}", drop_panics.load(Ordering::SeqCst), if dropped_early { " and the stream was dropped early" } else { "" }, gs.encode())));
+        return out;
+    }
+    if dropped_early {
+        stats.early_drops += 1;
+    }
     stats.yields += yields as u64;
     stats.cross_thread_drops += shipped as u64;
     stats.parks += parks;
@@ -186,7 +216,7 @@ pub fn xthread_stream(gs: &GraphSpec, seed: u64, workers: usize, reverse: bool, 
         out.push(v("C05", "stall-cross-thread", format!("consumer pending, every FnRef handed out ({shipped} shipped to other threads) has been dropped, no wake-up signalled, {yields} of {n} yielded; graph {}", gs.encode())));
         return out;
     }
-    if ended && yields != n {
+    if ended && !dropped_early && yields != n {
         out.push(v("C05", "none-before-all-yielded", format!("stream ended after {yields} of {n}; graph {}", gs.encode())));
     }
     // ordering as seen across threads
@@ -223,6 +253,69 @@ pub fn xthread_stream(gs: &GraphSpec, seed: u64, workers: usize, reverse: bool, 
 }
 
 /// k threads, each running director-controlled cases of `&self` APIs on ONE shared graph value.
+/// "Dropping FnRefs or the stream in any order never panics", with the two drops racing on
+/// different threads: pull `n-1` FnRefs out of a stream over `n` independent functions, hand them
+/// to a worker that drops them back to back, and drop the stream on this thread at the same moment.
+#[cfg(feature = "mt")]
+pub fn xthread_drop_race(n: usize, trials: usize, reverse: bool) -> (Vec<Violation>, u64) {
+    use std::sync::Barrier;
+    let gs = GraphSpec::new(n);
+    let Some(g) = try_build(&gs) else { return (Vec::new(), 0) };
+    let mut out = Vec::new();
+    let mut races = 0u64;
+    for trial in 0..trials {
+        let pw = ParkWaker::new();
+        let waker = Waker::from(pw.clone());
+        let mut cx = Context::from_waker(&waker);
+        let mut stream = Box::pin(if reverse { g.stream_with(fn_graph::StreamOpts::new().rev()).left_stream() } else { g.stream().right_stream() });
+        let mut refs = Vec::with_capacity(n);
+        while refs.len() + 1 < n {
+            match stream.as_mut().poll_next(&mut cx) {
+                Poll::Ready(Some(r)) => refs.push(r),
+                _ => break,
+            }
+        }
+        let barrier = Barrier::new(2);
+        let panics = AtomicUsize::new(0);
+        thread::scope(|s| {
+            let (barrier, panics) = (&barrier, &panics);
+            s.spawn(move || {
+                barrier.wait();
+                for r in refs {
+                    if std::panic::catch_unwind(std::panic::AssertUnwindSafe(move || drop(r))).is_err() {
+                        panics.fetch_add(1, Ordering::SeqCst);
+                    }
+                }
+            });
+            barrier.wait();
+            // vary where in the worker's drop sequence the stream goes away
+            for _ in 0..(trial % 7) * 20 {
+                std::hint::spin_loop();
+            }
+            if std::panic::catch_unwind(std::panic::AssertUnwindSafe(move || drop(stream))).is_err() {
+                panics.fetch_add(1, Ordering::SeqCst);
+            }
+        });
+        races += 1;
+        if panics.load(Ordering::SeqCst) > 0 {
+            out.push(v("C05", "panic-on-drop-cross-thread", format!("{} panic(s) while {} FnRefs were dropped on another thread and the stream was dropped concurrently (trial {trial}, {} independent functions, {})", panics.load(Ordering::SeqCst), n - 1, n, if reverse { "reverse" } else { "forward" })));
+            break;
+        }
+    }
+    (out, races)
+}
+
+#[cfg(not(feature = "mt"))]
+pub fn xthread_drop_race(_n: usize, _trials: usize, _reverse: bool) -> (Vec<Violation>, u64) {
+    (Vec::new(), 0)
+}
+
+#[cfg(not(feature = "mt"))]
+pub fn threads_directors(_gs: &GraphSpec, _seed: u64, _k: usize, _runs_per_thread: usize, _cfg_b: bool) -> (Vec<Violation>, u64) {
+    (Vec::new(), 0)
+}
+
+#[cfg(feature = "mt")]
 pub fn threads_directors(gs: &GraphSpec, seed: u64, k: usize, runs_per_thread: usize, cfg_b: bool) -> (Vec<Violation>, u64) {
     let Some(g) = try_build(gs) else { return (Vec::new(), 0) };
     let ug = UserGraph::from_spec(gs);
@@ -532,7 +625,7 @@ pub async fn send_user(log: SendLog, f: usize) {
 /// multi-thread runtime with an `Arc<FnGraph>` shared by all tasks; `FnRef`s produced on one
 /// worker are dropped on other threads. Only compiles when the Send/Sync promises of C19 hold
 /// (default features).
-#[cfg(not(feature = "b"))]
+#[cfg(all(not(feature = "b"), feature = "mt"))]
 pub fn tokio_multi_thread(gs: &GraphSpec, seed: u64, tasks: usize) -> (Vec<Violation>, u64) {
     use crate::director::Ev;
     let Some(g) = try_build(gs) else { return (Vec::new(), 0) };
@@ -641,9 +734,11 @@ pub fn tokio_multi_thread(gs: &GraphSpec, seed: u64, tasks: usize) -> (Vec<Viola
     (out, runs)
 }
 
-#[cfg(feature = "b")]
+#[cfg(not(all(not(feature = "b"), feature = "mt")))]
 pub fn tokio_multi_thread(_gs: &GraphSpec, _seed: u64, _tasks: usize) -> (Vec<Violation>, u64) {
-    // With `interruptible` the concurrent futures are not Send (and are not promised to be).
+    // With `interruptible` the concurrent futures are not Send (and are not promised to be); without
+    // the harness feature `mt` the Send-requiring workload is not compiled (so that a missing Send
+    // makes only C19 undecidable / violated, not every other check).
     (Vec::new(), 0)
 }
 
